@@ -29,7 +29,7 @@ SPEC = {
 }
 PLAN = {"quick": {"cases": 1500}, "thorough": {"cases": 20000}}
 
-HEADERS = [["", "", ""], ["benzene - a ring", "  -ISIS-  0927261200", "comment ending with dash-"], ["M  V30 x-", "  prog", "M  END"], ["x" * 80, "y" * 80, "z" * 80],
+HEADERS = [["", "", ""], ["benzene - a ring", "  -ISIS-  0927261200", "comment ending with dash-"], ["M  V30 x-", "  prog", "M  END"], ["x" * 79, "y" * 79, "z" * 79],
            ["M  V30 BEGIN CTAB", "M  V30 COUNTS 9 9 0 0 0", "  0  0  0     0  0            999 V2000"], ["$$$$", "> <x>", "V3000"]]
 
 
@@ -71,7 +71,6 @@ def vary(mol: Mol, dim: str, rng):
                 a.x = a.y = a.z = 0.0
             else:
                 a.x, a.y, a.z = float(int(a.x)), float(int(a.y)), float(int(a.z))
-        st3.exotic_numbers = rng.random() < 0.5
 
     def bond_types():
         m.bonds = [(i, j, rng.choice([1, 2, 3, 4, 5, 6, 7, 8, 9, 10])) for i, j, _ in m.bonds]
@@ -103,7 +102,9 @@ def vary(mol: Mol, dim: str, rng):
     elif dim == "trailing_blocks":
         st3.trailing_blocks = True
     elif dim == "after_end":
-        st3.after_end = rng.choice(["$$$$", "\n", "> <NAME>\nfoo\n\n$$$$", "M  END", "garbage after end - ", "M  V30 1 C 0 0 0 0"])
+        second = Mol([ctab.Atom("N", 1, 0, 15, 1.0, 0.0, 0.0), ctab.Atom("O", -1, 2, 0, 2.0, 0.0, 0.0)], [(0, 1, 2)], "second record")
+        st3.after_end = rng.choice(["$$$$", "> <NAME>\nfoo\n\n$$$$", "> <NAME>\nfoo\n\n> <ID>\n7\n\n$$$$",
+                                    "$$$$\n" + ctab.render_v3000(second, V3Style(), rng) + "\n$$$$"])
         st3.final_eol = rng.random() < 0.5
     elif dim == "line_endings":
         st3.eol = "\r\n"
@@ -116,6 +117,7 @@ def vary(mol: Mol, dim: str, rng):
         pass
     elif dim in ("v2000_format", "v2000_unrelated_lines", "v2000_charge_encoding", "v2000_after_end"):
         fmt = "v2000"
+        m.bonds = [(i, j, t if 1 <= t <= 8 else 1) for i, j, t in m.bonds]  # V2000 bond types are 1..8 (non-identity data)
         for a in m.atoms:  # make it representable without touching identity data
             a.x, a.y, a.z = round(a.x, 4), round(a.y, 4), round(a.z, 4)
         st2 = V2Style(encoding="lines", dt_symbols=rng.random() < 0.5)
@@ -127,7 +129,7 @@ def vary(mol: Mol, dim: str, rng):
             # text after "M  END": SD-file data items, a record separator, or a whole second record with its own property lines
             second = Mol([ctab.Atom("C", 0, 2, 13, 1.0, 0.0, 0.0), ctab.Atom("O", -1, 0, 18, 2.0, 0.0, 0.0)], [(0, 1, 1)], "second record")
             st2.after_end = rng.choice(["$$$$", "> <ID>\n17\n\n$$$$", "$$$$\n" + ctab.render_v2000(second, V2Style(encoding="lines"), rng) + "\n$$$$",
-                                        "M  ISO  1   1  13", "M  RAD  1   1   2\nM  END"])
+                                        "> <ID>\n17\n\n$$$$\n" + ctab.render_v2000(second, V2Style(encoding="lines"), rng) + "\n$$$$"])
             st2.final_eol = rng.random() < 0.5
         if dim == "v2000_charge_encoding":
             charges()
@@ -138,7 +140,7 @@ def vary(mol: Mol, dim: str, rng):
         coords(); bond_types(); charges()
         n = len(m.atoms)
         st3 = V3Style(index_map=rng.sample(range(1, 5 * n + 10), n), extra_atom_kw=1.5, extra_bond_kw=1.5, kw_shuffle=True, header=rng.choice(HEADERS),
-                      trailing_blocks=True, after_end="$$$$", eol=rng.choice(["\n", "\r\n"]), aamap=True, blanks=3, explicit_defaults=0.3, exotic_numbers=True,
+                      trailing_blocks=True, after_end="$$$$", eol=rng.choice(["\n", "\r\n"]), aamap=True, blanks=3, explicit_defaults=0.3,
                       split=rng.choice(["none", "random"]))
     return m, fmt, st3, st2
 
